@@ -27,7 +27,7 @@ SubTypeOf(t2, t1) ==
     [] t1.k \in {"list", "map"} -> t2.k = t1.k /\ SubTypeOf(t2.et, t1.et)
     [] OTHER -> t2 = t1
 
-\* e: event, W: properties wanted, M: built message, tt: schema type, x: [pobj, ptf, obj, tf, dg, pn, conv]
+\* e: event, W: properties wanted, M: built message, tt: schema type, x: [pobj, ptf, obj, tf, dg, pn, conv, hooks]
 \* (pre / post states).  Returns [viol, evald, aux].
 Judge(e, W, M, tt, aux, x) ==
   LET fresh == x.pobj = M.zero
@@ -54,11 +54,13 @@ Judge(e, W, M, tt, aux, x) ==
                  \cup (IF refresh /\ "C09" \in W THEN C09(ctx09) ELSE {})
                  \cup (IF idem /\ "C09" \in W THEN C09Idem(ctx09) ELSE {})
                  \cup (IF echoing /\ "C08" \in W THEN C08To(ctx08) ELSE {})
-                 \cup (IF reduced /\ "C06" \in W THEN C06To(ctx06) ELSE {}),
+                 \cup (IF reduced /\ "C06" \in W THEN C06To(ctx06) ELSE {})
+                 \cup (IF "C17" \in W /\ x.ptf.k = "obj" THEN C17To([M |-> M, obj |-> x.pobj, pre |-> x.ptf, tf |-> x.tf, hooks |-> x.hooks, dg |-> x.dg, pn |-> x.pn]) ELSE {}),
            evald |-> {p \in {"C03", "C20", "C07"} : fromEmpty /\ p \in W}
                  \cup {p \in {"C09"} : (refresh \/ idem) /\ p \in W}
                  \cup {p \in {"C08"} : echoing /\ p \in W}
-                 \cup {p \in {"C06"} : reduced /\ p \in W},
+                 \cup {p \in {"C06"} : reduced /\ p \in W}
+                 \cup {p \in {"C17"} : p \in W /\ CustomIdx(M) # {}},
            aux |-> [aux EXCEPT !.rt = IF fromEmpty /\ ~x.pn THEN [armed |-> TRUE, orig |-> x.pobj] ELSE NoRT,
                                !.chain = @ /\ ~x.pn /\ ~HasError(x.dg),
                                !.lastArmed = ~x.pn, !.lastObj = x.pobj,
@@ -84,11 +86,13 @@ Judge(e, W, M, tt, aux, x) ==
                  \cup (IF "C07" \in W /\ ~x.pn /\ conforming THEN C07From(M, x.ptf, x.obj) ELSE {})
                  \cup (IF "C05" \in W /\ conforming THEN C05(ctx05) \cup pairViol ELSE {})
                  \cup (IF "C06" \in W THEN C06From(ctx05) ELSE {})
-                 \cup (IF "C08" \in W /\ echo3 THEN C08Redecode(ctx08) ELSE {}),
+                 \cup (IF "C08" \in W /\ echo3 THEN C08Redecode(ctx08) ELSE {})
+                 \cup (IF "C17" \in W THEN C17From([M |-> M, tf |-> x.ptf, hooks |-> x.hooks, dg |-> x.dg, pn |-> x.pn]) ELSE {}),
            evald |-> {p \in {"C04", "C19"} : rtOn /\ p \in W}
                  \cup {p \in {"C07", "C05"} : conforming /\ p \in W}
                  \cup {p \in {"C06"} : p \in W}
-                 \cup {p \in {"C08"} : echo3 /\ p \in W},
+                 \cup {p \in {"C08"} : echo3 /\ p \in W}
+                 \cup {p \in {"C17"} : p \in W /\ CustomIdx(M) # {}},
            aux |-> [aux EXCEPT !.rt = NoRT, !.lastArmed = FALSE,
                                !.memo = IF conforming /\ ~seen /\ ~x.pn /\ "C05" \in W THEN Put(@, key, [res |-> res, tf |-> x.ptf]) ELSE @,
                                !.echo = IF echo1 /\ ~x.pn /\ C08Plan(M, aux.echo.plan) THEN [@ EXCEPT !.st = 2, !.s = x.obj, !.dg = x.dg] ELSE NoEcho]]
